@@ -93,6 +93,20 @@ CLAIMED = {
              "One recorded finding (CLI default shadows the file) is reported as KNOWN-FINDING.",
         technique="dynamic symbolic execution of the real Python functions over z3 proxies (symx), all feasible paths within the bound; AST extraction of the CLI binding; counterexample replay",
         design="DESIGN.md §3 C18"),
+    "C15": dict(
+        text="Bounded solver verdict on the real block-configuration code: try_block_config (with _try_block_config, _get_ifm_blocksize, "
+             "_required_size, _ifm_blockdepth, fit_block_for_ofm, _acc_type, _ew_usage) for the 6 accelerators on a symbolic block depth, IFM "
+             "depth and OFM shape with enumerated block (h,w), kernels, strides, op kinds, bit depths, LUT use, scalar/broadcast, upscaling: an "
+             "accepted block is a positive micro-block multiple within the maximum and its SHRAM layout is ordered, inside the bank count, with "
+             "IFM / IFM2 / accumulator partitions each double-buffering the required block at its bank granule (independent restatement of the "
+             "shared-buffer rules incl. the 1-D optimisation); invalid blocks are rejected; for every operation description the argument "
+             "derivation of api.npu_find_block_configs implies acceptance under get_arch_block_config's derivation (symbolic block depth); "
+             "find_block_config's results re-validate.",
+        note="Trusted: z3, symx proxies, the per-accelerator constants (micro-block, banks, granules) restated in the harness, my reading "
+             "of the SHRAM double-buffering rule. Quick tier samples 260 of the enumerated layout combinations per accelerator by seed "
+             "(thorough: all). Outside: part-kernel choice agreement with the weight encoder, cost-based candidate choice.",
+        technique="dynamic symbolic execution of the real Python functions over z3 proxies (symx), bounded; restated SHRAM-rule oracle; counterexample replay",
+        design="DESIGN.md §3 C15"),
 }
 
 NOT_APPLICABLE = {
